@@ -157,7 +157,7 @@ func init() {
 			}
 			envs := make([]*testEnv, hi-lo)
 			for i := range envs {
-				e, err := newEnv(c, proxyCfg{Redis: !strings.HasPrefix(scs[lo+i].kind, "cookie"), CookieRefresh: time.Second})
+				e, err := newEnv(c, proxyCfg{Redis: !strings.HasPrefix(scs[lo+i].kind, "cookie"), CookieRefresh: time.Second, RedisRealTime: true})
 				if err != nil {
 					c.violation("HARNESS", "env: "+err.Error(), nil)
 					c.close(nil)
